@@ -45,6 +45,7 @@ type renderer struct {
 	tgtName   func(i int) string
 	tblName   func(i int) string
 	chkLine   string
+	faultName func(t *replTable) string // instance name of the scripted failing table standing for t
 	nmods     int // scopes with inline modify tables rendered so far
 	splitMods int // of those, written as one `modify` directive per table
 
@@ -128,6 +129,10 @@ func (r *renderer) modifier(t *replTable) []string {
 	name := "replace_rcpt"
 	if t.sender {
 		name = "replace_sender"
+	}
+	if t.fault != nil {
+		r.stats["written_failing_rewrite_table_references"]++
+		return []string{name + " &" + r.faultName(t)}
 	}
 	if t.named {
 		n, fresh := r.name("rt", t)
